@@ -31,9 +31,14 @@ const (
 	svPtr   // pointer to a cell (nil when cell == nil)
 	svSlice // view of a backing array
 	svTuple
+	svStruct // fields are the cells of backing
+	svMap    // entries keyed by the printed form of the (concrete) key
 )
 
-type svCell struct{ v symVal }
+type svCell struct {
+	v    symVal
+	slot bool // stands for a configuration slot: its content is the slot's symbol whatever is stored there
+}
 
 type symVal struct {
 	kind    svKind
@@ -41,7 +46,8 @@ type symVal struct {
 	b       bool
 	name    string    // svStr: the symbol
 	cell    *svCell   // svPtr
-	backing *[]svCell // svSlice
+	backing *[]svCell // svSlice: the array; svStruct: the fields
+	entries map[string]symVal
 	off, n  int
 	capn    int
 	tuple   []symVal
@@ -69,6 +75,12 @@ func (v symVal) String() string {
 }
 
 type symExec struct {
+	// globals: the package-level variables the interpreted code reads (tables, sets), as built by the
+	// package initialiser, interpreted leniently once per run (initGlobals)
+	globals    map[*ssa.Global]*svCell
+	slotCells  map[string]*svCell // cells standing for configuration slots (&Config.Parsers.JSON)
+	lenient    bool               // initialiser mode: what is outside the vocabulary is opaque, not a failure
+	prog       *Prog
 	// fieldLoad answers a load of a field reached from a named opaque value (`r.Method` of parameter r)
 	fieldLoad func(path string) (symVal, bool)
 	env       map[ssa.Value]symVal
@@ -86,6 +98,9 @@ func newSymExec(oracle func(callee string, args []symVal) (symVal, bool)) *symEx
 }
 
 func (se *symExec) fail(format string, a ...interface{}) bool {
+	if se.lenient {
+		return true
+	}
 	if se.problem == "" {
 		se.problem = fmt.Sprintf(format, a...)
 	}
@@ -207,7 +222,9 @@ func (se *symExec) step(in ssa.Instruction) bool {
 		if addr.kind != svPtr || addr.cell == nil {
 			return se.fail("store through an untracked address at %v", x.Pos())
 		}
-		addr.cell.v = se.val(x.Val)
+		if !addr.cell.slot {
+			addr.cell.v = copyStruct(se.val(x.Val))
+		}
 		return true
 	case *ssa.UnOp:
 		switch x.Op {
@@ -216,6 +233,12 @@ func (se *symExec) step(in ssa.Instruction) bool {
 			if name := globalFieldPath(x.X); name != "" {
 				se.env[x] = symVal{kind: svStr, name: name}
 				return true
+			}
+			if g, ok := x.X.(*ssa.Global); ok {
+				if c := se.globalCell(g); c != nil {
+					se.env[x] = c.v
+					return true
+				}
 			}
 			p := se.val(x.X)
 			if p.kind == svOpaque && p.name != "" && se.fieldLoad != nil {
@@ -391,7 +414,22 @@ func (se *symExec) step(in ssa.Instruction) bool {
 		se.env[x] = symVal{}
 		return true
 	case *ssa.FieldAddr:
+		// the address of a configuration slot (&Config.Parsers.JSON): a cell holding the slot's symbol
+		if name := globalFieldPath(x); name != "" {
+			if se.slotCells == nil {
+				se.slotCells = map[string]*svCell{}
+			}
+			if se.slotCells[name] == nil {
+				se.slotCells[name] = &svCell{v: symVal{kind: svStr, name: name}, slot: true}
+			}
+			se.env[x] = symVal{kind: svPtr, cell: se.slotCells[name]}
+			return true
+		}
 		base := se.val(x.X)
+		if base.kind == svPtr && base.cell != nil && base.cell.v.kind == svStruct && x.Field < len(*base.cell.v.backing) {
+			se.env[x] = symVal{kind: svPtr, cell: &(*base.cell.v.backing)[x.Field]}
+			return true
+		}
 		if base.kind == svOpaque && base.name != "" {
 			if _, f := fieldVar(x); f != nil {
 				se.env[x] = symVal{kind: svOpaque, name: base.name + "." + f.Name()}
@@ -400,7 +438,40 @@ func (se *symExec) step(in ssa.Instruction) bool {
 		}
 		se.env[x] = symVal{}
 		return true
-	case *ssa.Field, *ssa.MakeInterface, *ssa.ChangeType, *ssa.Convert, *ssa.TypeAssert, *ssa.MakeClosure:
+	case *ssa.Field:
+		base := se.val(x.X)
+		if base.kind == svStruct && x.Field < len(*base.backing) {
+			se.env[x] = (*base.backing)[x.Field].v
+			return true
+		}
+		se.env[x] = symVal{}
+		return true
+	case *ssa.MakeMap:
+		se.env[x] = symVal{kind: svMap, entries: map[string]symVal{}}
+		return true
+	case *ssa.MapUpdate:
+		m, k := se.val(x.Map), se.val(x.Key)
+		if m.kind != svMap || m.entries == nil || !concreteKey(k) {
+			return se.fail("map update outside the interpreter's vocabulary")
+		}
+		m.entries[k.String()] = copyStruct(se.val(x.Value))
+		return true
+	case *ssa.Lookup:
+		m, k := se.val(x.X), se.val(x.Index)
+		if m.kind != svMap || !concreteKey(k) {
+			return se.fail("lookup outside the interpreter's vocabulary at %v", x.Pos())
+		}
+		v, ok := m.entries[k.String()]
+		if !ok {
+			v = zeroSym(x.X.Type().Underlying().(*types.Map).Elem())
+		}
+		if x.CommaOk {
+			se.env[x] = symVal{kind: svTuple, tuple: []symVal{v, {kind: svBool, b: ok}}}
+		} else {
+			se.env[x] = v
+		}
+		return true
+	case *ssa.MakeInterface, *ssa.ChangeType, *ssa.Convert, *ssa.TypeAssert, *ssa.MakeClosure:
 		if v, ok := in.(ssa.Value); ok {
 			if ct, ok := in.(*ssa.ChangeType); ok {
 				se.env[v] = se.val(ct.X)
@@ -487,6 +558,67 @@ func (se *symExec) step(in ssa.Instruction) bool {
 	return se.fail("instruction %T outside the interpreter's vocabulary", in)
 }
 
+// copyStruct: struct values are copied on store (value semantics).
+func copyStruct(v symVal) symVal {
+	if v.kind != svStruct || v.backing == nil {
+		return v
+	}
+	cells := make([]svCell, len(*v.backing))
+	for i := range cells {
+		cells[i].v = copyStruct((*v.backing)[i].v)
+	}
+	return symVal{kind: svStruct, backing: &cells}
+}
+
+func concreteKey(k symVal) bool {
+	return k.kind == svStr || k.kind == svInt || k.kind == svBool
+}
+
+// globalCell: the value of a package-level variable as its package initialiser builds it. The initialiser is
+// interpreted leniently (anything outside the vocabulary is opaque) once; a variable it does not build from
+// constants stays opaque. Only unexported variables are trusted: nobody outside the package can write them,
+// and C08's write-effect rule forbids execution code to.
+func (se *symExec) globalCell(g *ssa.Global) *svCell {
+	if g.Object() == nil || g.Object().Exported() || g.Pkg == nil {
+		return nil
+	}
+	if se.globals == nil {
+		se.globals = map[*ssa.Global]*svCell{}
+		init := g.Pkg.Func("init")
+		if init != nil && init.Blocks != nil {
+			sub := &symExec{env: map[ssa.Value]symVal{}, arrays: map[*ssa.Alloc]*[]svCell{}, cells: map[*ssa.Alloc]*svCell{}, lenient: true, globals: se.globals, slotCells: se.slotCells}
+			sub.runInit(init)
+			se.slotCells = sub.slotCells
+		}
+	}
+	return se.globals[g]
+}
+
+// runInit walks the initialiser's blocks in order (it is straight-line code apart from the init guard),
+// executing what it understands and recording stores to package-level variables.
+func (se *symExec) runInit(init *ssa.Function) {
+	for _, b := range init.Blocks {
+		for _, in := range b.Instrs {
+			if st, ok := in.(*ssa.Store); ok {
+				if g, isG := st.Addr.(*ssa.Global); isG {
+					se.globals[g] = &svCell{v: copyStruct(se.val(st.Val))}
+					continue
+				}
+			}
+			if _, isCall := in.(*ssa.Call); isCall {
+				if v, ok := in.(ssa.Value); ok {
+					se.env[v] = symVal{}
+				}
+				continue
+			}
+			func() {
+				defer func() { _ = recover() }()
+				se.step(in)
+			}()
+		}
+	}
+}
+
 // globalFieldPath: addr is a chain of field selections on a package-level variable; returns "@Var.f.g".
 func globalFieldPath(addr ssa.Value) string {
 	var parts []string
@@ -512,6 +644,14 @@ func globalFieldPath(addr ssa.Value) string {
 
 func zeroSym(t types.Type) symVal {
 	switch u := t.Underlying().(type) {
+	case *types.Struct:
+		cells := make([]svCell, u.NumFields())
+		for i := range cells {
+			cells[i].v = zeroSym(u.Field(i).Type())
+		}
+		return symVal{kind: svStruct, backing: &cells}
+	case *types.Map:
+		return symVal{kind: svMap}
 	case *types.Basic:
 		switch {
 		case u.Info()&types.IsString != 0:
